@@ -706,3 +706,9 @@ def judge_c11(mb, run, result):
         else:
             out.append(Violation('concurrency:out-event-to-non-holder', f'{name} -> client {got}, holder {holders[0]}', c['seq']))
     return _dedup(out)
+
+
+def judge_static_c09(mb, name, ok):
+    if name == 'locator_accessor_is_reference' and not ok:
+        return [Violation('facilities:locator-accessor-returns-a-copy', 'Locator() does not return a reference to the locator the shell owns')]
+    return []
